@@ -26,7 +26,7 @@ MANIFEST = dict(
 )
 
 PINNED = ["C05_accept_implies_bounds", "C05_accept_per_tag", "C05_setup", "C05_channel_value", "C05_onchain",
-          "C05_usable_only_after_setup", "C05_filter_default", "C05_filter_only_explicit", "C05_nonvacuous",
+          "C05_usable_only_after_setup", "C05_signed_commitment_bounds", "C05_dedup_validation_refuted", "C05_filter_default", "C05_filter_only_explicit", "C05_nonvacuous",
           "C05_fee_truncation_refuted"]
 
 IMPORTS = ["Model.CommitmentPolicyCheck"]
@@ -46,6 +46,7 @@ def run(res):
     n_chan = 150 if quick else 1500
     n_life = 140 if quick else 2100
     n_wire = 300 if quick else 6000
+    n_signed = 450 if quick else 9000
     commit, setup, chan, stats = [], [], [], []
     for prof in profiles:
         r = lib.run_harness("policy", "commit", res.seed, n_commit, res.tier, profile=prof)
@@ -64,6 +65,11 @@ def run(res):
     wire = r["CASE"]
     stats += r.get("STATS", [])
     life = life + wire     # same case type (life_case), same checker
+    signed = []
+    for prof in profiles:
+        r = lib.run_harness("policy", "signed", res.seed, n_signed, res.tier, profile=prof)
+        signed += r["CASE"]
+        stats += r.get("STATS", [])
 
     cterms = [c["coq"] for c in commit]
     sterms = [c["coq"] for c in setup]
@@ -72,6 +78,8 @@ def run(res):
     fc = lib.coq_failures(IMPORTS, "commit_case", "check_commit", cterms, "c05_commit")
     fs = lib.coq_failures(IMPORTS, "setup_case", "check_setup", sterms, "c05_setup")
     fh = lib.coq_failures(IMPORTS, "sign_case", "check_sign", hterms, "c05_sign")
+    gterms = [c["coq"] for c in signed]
+    fg = lib.coq_failures(IMPORTS, "commit_case", "check_signed", gterms, "c05_signed")
     lterms = [c["coq"] for c in life]
     fl = lib.coq_failures(IMPORTS, "life_case", "check_life", lterms, "c05_life")
 
@@ -80,6 +88,12 @@ def run(res):
     mon_setup = [c for c in setup if c["monitor_violation"]]
     mon_chan = [c for c in chan if c["monitor_violation"]]
     mon_life = [c for c in life if c["monitor_violation"]]
+    mon_signed = [c for c in signed if c["monitor_violation"]]
+    for c in mon_signed[:3]:
+        res.violation("a commitment outside the policy bounds was SIGNED (the returned signature verifies against the "
+                      "transaction built from the full HTLC lists of the request, repeated entries included): "
+                      + "; ".join(c["monitor_violation"][:2]),
+                      {"domain": "policy-signed", "seed": res.seed, "case": _strip(c)})
     for c in [c for c in mon_life if c["kind"] == "life"][:2]:
         res.violation("a commitment was signed / accepted on a channel whose setup did not pass validate_setup_channel "
                       "(new_channel, setup_channel refused, then requests on the same channel id): "
@@ -115,7 +129,20 @@ def run(res):
             bad = [hterms[j] for j in fh]
             still = lib.coq_failures(IMPORTS, "sign_case", "check_sign_old", bad, "c05_sign_old")
             explained_old += len(bad) - len(still)
-    have_input = bool(mon_commit or mon_chan or mon_setup or mon_life)
+    have_input = bool(mon_commit or mon_chan or mon_setup or mon_life or mon_signed)
+    shown = 0
+    for i in fg:
+        c = signed[i]
+        if c["monitor_violation"]:
+            continue
+        if shown >= 2:
+            break
+        shown += 1
+        model = lib.coq_eval(IMPORTS, "signed_model (%s)" % c["coq"], "c05_show")
+        res.violation("phase-2 signing with HTLC lists disagrees with the model (correspondence policy-signed); observed 0 "
+                      "signed for the full lists, 1 panic, 2 refused, 3/4 signed for another transaction; model 0/1/2",
+                      {"correspondence": "policy-signed", "theorem": "C05_signed_commitment_bounds", "case": _strip(c),
+                       "model": model[-200:]}, has_input=False)
     shown = 0
     for i in fc:
         c = commit[i]
@@ -163,13 +190,13 @@ def run(res):
                        "step": c["steps"][i], "model(repaired, as-found)": model[-300:]}, has_input=False)
 
     structured = {c["coq"] for c in commit if c["kind"] in ("base", "pairwise")}
-    nontrivial = len(structured) + len(set(sterms)) + len(set(hterms)) + len(set(lterms))
+    nontrivial = len(structured) + len(set(sterms)) + len(set(hterms)) + len(set(lterms)) + len(set(gterms))
     dist = {}
     for c in commit:
         dist[str(c["observed"])] = dist.get(str(c["observed"]), 0) + 1
     witness = [c for c in chan if c["kind"] == "chan-F5-witness"]
     cov.update({
-        "evaluations": len(commit) + len(setup) + len(hterms) + len(life),
+        "evaluations": len(commit) + len(setup) + len(hterms) + len(life) + len(signed),
         "distinct_nontrivial": nontrivial,
         "rule": "commit: 10% fully random edge values (malformed stream), 10% accepted base commitments, 80% an accepted "
                 "base commitment with two fields (all 351 pairs of 27 fields cycled) set to boundary values derived from "
@@ -189,16 +216,21 @@ def run(res):
                 "channel_type bits incl. anchors / zero-fee / padding), mostly valid with one kind of field over an edge; "
                 "the ChannelSetup is read back and compared field by field with the message; SignRemoteCommitmentTx2 for "
                 "commitment 0 giving the fundee 1000x the push / the msat figure / push+1 / the push, then "
-                "ValidateCommitmentTx2 with a genuine counterparty signature; bounds computed from the wire values. "
+                "ValidateCommitmentTx2 with a genuine counterparty signature; bounds computed from the wire values. signed: commitment 1 with HTLC lists through "
+                "Channel::sign_counterparty_commitment_tx_phase2, the SignRemoteCommitmentTx2 handler and "
+                "sign_holder_commitment_tx_phase2_redundant; 2-3 HTLCs identical in amount, hash and expiry on the offered "
+                "side, the received side or both (plus distinct ones); modes valid / fee below min / fee above max / "
+                "in-flight one over (or exactly the sum without repeats) / count one over; the signature is verified "
+                "against the transaction built with LDK from the full lists and the bounds are evaluated on that. "
                 "Non-trivial = structured case (base "
                 "or boundary-mutated; every setup and chan step), distinct by full Coq term.",
         "samples": [_strip(commit[2]) if len(commit) > 2 else None, _strip(setup[0]), _strip(chan[0]), _strip(life[1]),
-                    _strip(wire[0])],
-        "traces_validated_against_impl": len(commit) + len(setup) + len(hterms) + len(life),
-        "correspondence_disagreements": len(fc) + len(fs) + len(fh) + len(fl),
-        "disagreements_by_domain": {"commit": len(fc), "setup": len(fs), "chan": len(fh), "life": len(fl)},
+                    _strip(wire[0]), _strip(signed[0])],
+        "traces_validated_against_impl": len(commit) + len(setup) + len(hterms) + len(life) + len(signed),
+        "correspondence_disagreements": len(fc) + len(fs) + len(fh) + len(fl) + len(fg),
+        "disagreements_by_domain": {"commit": len(fc), "setup": len(fs), "chan": len(fh), "life": len(fl), "signed": len(fg)},
         "disagreements_matching_unrepaired_estimator": explained_old,
-        "monitor_failures": len(mon_commit) + len(mon_setup) + len(mon_chan) + len(mon_life),
+        "monitor_failures": len(mon_commit) + len(mon_setup) + len(mon_chan) + len(mon_life) + len(mon_signed),
         "observed_distribution_commit(0 ok,1 panic,100+tag)": dist,
         "profiles": profiles,
         "f5_witness_replay": [s["observed"] for s in witness[0]["steps"]] if witness else None,
